@@ -119,7 +119,10 @@ def main():
     # layout metamorphosis: the same single-file program with CRLF line ends, and with a comment line of multi-byte
     # characters in front (LF and CRLF), must get the same diagnostics at the same line/column over the same text
     base = [(i, u[0][1]) for i, u in enumerate(inputs)
-            if len(u) == 1 and "\r" not in u[0][1] and all(ord(c) < 128 for c in u[0][1]) and not h[i].startswith(("crash", "panic"))]
+            if len(u) == 1 and "\r" not in u[0][1] and all(ord(c) < 128 for c in u[0][1]) and not h[i].startswith(("crash", "panic"))
+            # an empty source is a lexical error (E101) while a source holding only a comment is not (cf. F34):
+            # putting a comment in front preserves the diagnostics only of sources with at least one token
+            and re.sub(r"//[^\n]*", "", u[0][1]).strip() != ""]
     base = base[:(3000 if thorough else 250)]
     variants = []
     for i, src in base:
